@@ -1,5 +1,6 @@
 """C06 — failure injection into every user-function site; Run must return an error (or succeed with the right rows)."""
 PID = "C06"
+EXTRA_TARGETS = ("BS.Properties.C06r",)
 SUBS = ["C06sev", "C06"]
 PARALLEL = {"C06": 8}
 TIMEOUT = {"quick": 1500, "thorough": 7000}
@@ -115,10 +116,28 @@ def t2(chk, wc, tier, seed):
         rows.append(("runCombine.recover", "recover()" in b))
     except ValueError:
         rows += [("runCombine.handback", False), ("runCombine.recover", False)]
+    # (D26) a failed task-private combine discards the combiners: in runCombine a deferred function that returns early only
+    # for success or a shared (machine) combiner, then forgets the combiners and sets the state back to combinerNone
+    try:
+        b = body("exec/bigmachine.go", "func (w *worker) runCombine(")
+        m = re.search(r"defer func\(\) \{\s*if err == nil \|\| task\.CombineKey != \"\" \{\s*return\s*\}(.*?)\n\t\}\(\)", b, re.S)
+        blk = m.group(1) if m else ""
+        reset = ("delete(w.combiners, combineKey)" in blk and "w.combinerStates[combineKey] = combinerNone" in blk
+                 and ".Discard()" in blk and "w.combinerStates[combineKey] != combinerIdle" in blk)
+        # registered before the deferred function that decrements the reference count (so that it runs after it)
+        order = m is not None and b.find("w.combinerStates[combineKey]--") > m.start()
+    except ValueError:
+        reset, order = False, False
+    gen2 = "\ndef combinerResetOnFailureG : Bool := %s\ndef combinerResetRunsAfterDecrementG : Bool := %s" % (
+        "true" if reset else "false", "true" if order else "false")
     gen = "def protectionG : List (String × Bool) := [%s]" % ", ".join('("%s", %s)' % (n, "true" if v else "false") for n, v in rows)
     ties = [("all_sites_protected", "theorem all_sites_protected : protectionG.length = 5 ∧ ∀ s ∈ protectionG, s.2 = true := by decide",
              "exec/local.go bufferOutput, depReaders; exec/bigmachine.go worker.Run, runCombine: recover before user code, deferred combiner hand-back")]
-    vlib.t2_check(chk, wc, "C06", ["BS.Model.Fault"], gen, ties)
+    ties.append(("combiner_reset_on_failure",
+                 "theorem combiner_reset_on_failure : combinerResetOnFailureG = true ∧ combinerResetRunsAfterDecrementG = true := by decide",
+                 "exec/bigmachine.go (*worker).runCombine: a failed task-private combine discards the task's combiners and returns their state "
+                 "to combinerNone (BS.Combine.step with fixed := true; BS.Combine.retry_commits_exactly_one_attempt)"))
+    vlib.t2_check(chk, wc, "C06", ["BS.Model.Fault", "BS.Model.Combine"], gen + gen2, ties)
 
 
 def finding_key(case, obs, model, oracle):
